@@ -31,30 +31,34 @@ type c05episode struct {
 }
 
 type c05member struct {
-	pos        map[int]uint64
-	need       map[int]bool
-	needSince  map[int]int
-	ackSince   map[int]bool // an Ack contributed to the need (otherwise only non-document stream events did)
-	lastAckN   int
-	needPos    map[int]uint64 // position at the last dirtying cause
-	ackPos     map[int]uint64 // highest position flagged by an Ack
-	nondocN    map[int]int    // journal number of the last flagging non-document event
-	inAck      map[int]bool
-	pendTrack  map[int]*journal.Ev // position reported inside an Ack() that has not returned yet
-	sid        map[int]string
-	absorbSys  map[int]map[uint64]bool // seqnos of emitted non-document events per vb
-	absorbInt  map[int]map[uint64]bool // internal-key document events
-	ep         *c05episode
-	prevEp     *c05episode
-	prevOK     bool
-	episodes   int
-	lastActN   int // event number of the last ack invocation / dirtying absorb
-	sessionEp  int
-	explicit   map[string]*c05episode // call id -> snapshot
-	dead       bool
-	closing    bool
-	faultSince int      // number of faults seen
-	windows    [][2]int // journal ranges during which a save of this member was in flight
+	pos             map[int]uint64
+	need            map[int]bool
+	needSince       map[int]int
+	ackSince        map[int]bool // an Ack contributed to the need (otherwise only non-document stream events did)
+	lastAckN        int
+	needPos         map[int]uint64 // position at the last dirtying cause
+	ackPos          map[int]uint64 // highest position flagged by an Ack
+	nondocN         map[int]int    // journal number of the last flagging non-document event
+	inAck           map[int]bool
+	pendTrack       map[int]*journal.Ev // position reported inside an Ack() that has not returned yet
+	sid             map[int]string
+	absorbSys       map[int]map[uint64]bool // seqnos of emitted non-document events per vb
+	absorbInt       map[int]map[uint64]bool // internal-key document events
+	ep              *c05episode
+	prevEp          *c05episode
+	prevOK          bool
+	episodes        int
+	lastActN        int // event number of the last ack invocation / dirtying absorb
+	sessionEp       int
+	explicit        map[string]*c05episode // call id -> snapshot
+	dead            bool
+	closing         bool
+	needAtClose     map[int]uint64
+	atClose         map[int][3]uint64
+	lastAckNAtClose int
+	closeN          int
+	faultSince      int      // number of faults seen
+	windows         [][2]int // journal ranges during which a save of this member was in flight
 }
 
 // signature classifies how the unpersisted position came about (known-findings match on it).
@@ -200,6 +204,21 @@ func checkC05(run *Run, res *Result) {
 	}
 	// settle records a reported position as settled at event n (the report itself for absorbed stream events, the
 	// return of Ack() for acknowledgements).
+	// the stored checkpoint equals the position settled: the seqno together with the snapshot range and vbUUID the
+	// position was reported with (any session: a re-delivered event may carry another range)
+	type vbSeq struct {
+		m, vb int
+		seq   uint64
+	}
+	settledAs := map[vbKey]map[tuple]bool{} // what the writing member itself reported (a restarted member may store a reset position)
+	settledSeq := map[vbSeq]bool{}
+	checkStoredAs := func(e *journal.Ev, vb int, o *journal.Off) {
+		if e.M <= 0 || !settledSeq[vbSeq{e.M, vb, o.Seq}] || settledAs[vbKey{e.M, vb}][offTuple(o)] {
+			return
+		}
+		res.violate("C05", "R2-stored-position-altered", e.N, fmt.Sprintf("vb=%d", vb),
+			"member %d vb %d: the checkpoint stored for seqno %d is %s; that position was settled with another snapshot range / vbUUID", e.M, vb, o.Seq, offTuple(o))
+	}
 	settlePos := func(mm *c05member, e *journal.Ev, n int) {
 		viaAck := mm.inAck[e.Vb]
 		dirties := false
@@ -296,6 +315,11 @@ func checkC05(run *Run, res *Result) {
 			if e.Off == nil {
 				continue
 			}
+			if settledAs[vbKey{e.M, e.Vb}] == nil {
+				settledAs[vbKey{e.M, e.Vb}] = map[tuple]bool{}
+			}
+			settledAs[vbKey{e.M, e.Vb}][offTuple(e.Off)] = true
+			settledSeq[vbSeq{e.M, e.Vb, e.Off.Seq}] = true
 			mm := get(e.M)
 			if mm.dead {
 				continue
@@ -313,9 +337,40 @@ func checkC05(run *Run, res *Result) {
 				res.probe("explicit-save")
 			case "Close":
 				mm.closing = true
+				// what the save performed during Close has to leave stored: every position settled before the call
+				mm.needAtClose = map[int]uint64{}
+				mm.closeN = e.N
+				mm.atClose = map[int][3]uint64{}
+				mm.lastAckNAtClose = mm.lastAckN
+				for vb, b := range mm.need {
+					if b {
+						mm.needAtClose[vb] = mm.needPos[vb]
+						as := uint64(0)
+						if mm.ackSince[vb] {
+							as = 1
+						}
+						mm.atClose[vb] = [3]uint64{as, mm.ackPos[vb], uint64(mm.nondocN[vb])} // how it came about, as of the call
+					}
+				}
 			}
 		case journal.KRet:
 			mm := get(e.M)
+			if e.S == "Start" && mm.closing && !mm.dead && mm.needAtClose != nil && !cfg.Faults && cfg.Metadata != "file" &&
+				cfg.ConsumerMode == "deferred" && cfg.CkptType == "auto" && !cfg.ReadOnly && res.DeathKind == "" {
+				// graceful shutdown, no fault anywhere in the run, acknowledgements only from outside ConsumeEvent
+				for _, vb := range sortedKeys(mm.needAtClose) {
+					if want := mm.needAtClose[vb]; !haveStored[vb] || stored[vb] < want {
+						sig := "plain"
+						if c := mm.atClose[vb]; (c[0] == 0 || haveStored[vb] && stored[vb] >= c[1]) && c[2] > 0 && uint64(mm.lastAckNAtClose) < c[2] {
+							sig = "advanced-only-by-non-document-events-no-ack-since"
+						}
+						res.violate("C05", "R4-never-persisted", e.N, sig,
+							"member %d vb %d: position %d was settled before Close() (event #%d), the shutdown has completed and the store holds %d (present=%v): the save performed during Close left acknowledged work unpersisted",
+							e.M, vb, want, mm.closeN, stored[vb], haveStored[vb])
+					}
+				}
+				res.probe("shutdown-save-judged")
+			}
 			if e.S == "Start" {
 				mm.dead = true
 			}
@@ -340,17 +395,22 @@ func checkC05(run *Run, res *Result) {
 					delete(stored, vb)
 					delete(haveStored, vb)
 				}
-				for vb, o := range parseFileStore(e.Raw) {
+				fs := parseFileStore(e.Raw)
+				for vb, o := range fs {
 					stored[vb], haveStored[vb] = o.Seq, true
 				}
 				if e.S == "write" {
 					res.probe("file-store-written")
+					for _, vb := range sortedKeys(fs) {
+						checkStoredAs(e, vb, fs[vb])
+					}
 				}
 				settle()
 			}
 		case journal.KKVW:
 			if e.Off != nil && e.Vb >= 0 && isCkptKey(e.Key) {
 				stored[e.Vb], haveStored[e.Vb] = e.Off.Seq, true
+				checkStoredAs(e, e.Vb, e.Off)
 				settle()
 			}
 		case journal.KReq:
